@@ -1,64 +1,59 @@
-//! Byte-cursor input source shared by the Kani and the native build.
+//! Word-cursor input source shared by the Kani and the native build.  All symbolic input of
+//! a scenario is ONE `[u64; N]` array; every accessor consumes whole words (cheap for CBMC).
 use crate::compat::{assume, felt_from_word, w_lt, P, W};
 use starknet_crypto::Felt;
 
 pub struct Inp<'a> {
-    b: &'a [u8],
+    b: &'a [u64],
     pos: usize,
 }
 impl<'a> Inp<'a> {
-    pub fn new(b: &'a [u8]) -> Self {
+    pub fn new(b: &'a [u64]) -> Self {
         Inp { b, pos: 0 }
     }
     pub fn used(&self) -> usize {
         self.pos
     }
-    pub fn u8(&mut self) -> u8 {
+    pub fn u64(&mut self) -> u64 {
         let v = self.b[self.pos];
         self.pos += 1;
         v
     }
-    pub fn bool(&mut self) -> bool {
-        self.u8() & 1 == 1
+    pub fn u8(&mut self) -> u8 {
+        self.u64() as u8
     }
     pub fn u16(&mut self) -> u16 {
-        (self.u8() as u16) | ((self.u8() as u16) << 8)
+        self.u64() as u16
     }
-    pub fn u64(&mut self) -> u64 {
-        let mut v: u64 = 0;
-        let mut i = 0;
-        while i < 8 {
-            v |= (self.u8() as u64) << (8 * i);
-            i += 1;
-        }
-        v
-    }
-    pub fn bytes32(&mut self) -> [u8; 32] {
-        let mut o = [0u8; 32];
-        let mut i = 0;
-        while i < 32 {
-            o[i] = self.u8();
-            i += 1;
-        }
-        o
+    pub fn bool(&mut self) -> bool {
+        self.u64() & 1 == 1
     }
     pub fn word(&mut self) -> W {
         [self.u64(), self.u64(), self.u64(), self.u64()]
     }
-    /// any canonical field element
+    pub fn bytes32(&mut self) -> [u8; 32] {
+        let w = self.word();
+        let mut o = [0u8; 32];
+        o[0..8].copy_from_slice(&w[3].to_be_bytes());
+        o[8..16].copy_from_slice(&w[2].to_be_bytes());
+        o[16..24].copy_from_slice(&w[1].to_be_bytes());
+        o[24..32].copy_from_slice(&w[0].to_be_bytes());
+        o
+    }
+    /// any canonical field element (4 words)
     pub fn felt(&mut self) -> Felt {
         let w = self.word();
         assume(w_lt(&w, &P));
         felt_from_word(w)
     }
-    /// a felt that is a small integer (< 2^16): cheap for shape-like numbers
+    /// a felt that is a small integer (< 2^16): cheap for shape-like numbers (1 word)
     pub fn felt_u16(&mut self) -> Felt {
         Felt::from(self.u16())
     }
     /// u8 in lo..=hi
     pub fn range_u8(&mut self, lo: u8, hi: u8) -> u8 {
-        let v = self.u8();
-        assume(v >= lo && v <= hi);
-        v
+        let v = self.u64();
+        assume(v >= lo as u64 && v <= hi as u64);
+        v as u8
     }
 }
